@@ -1,6 +1,7 @@
 import IpaVerif.Model.Util
 import IpaVerif.Model.Sharing
 import IpaVerif.Model.Circuits
+import IpaVerif.Model.Conv
 import IpaVerif.Generated.PrimeFields
 import IpaVerif.Generated.C07Consts
 /-! Line-protocol handlers for property C07 (model side) and the spec-side oracle. Import-free. -/
@@ -115,6 +116,19 @@ def aggOp (w tv : Nat) (rows : List (List Nat)) (cols : Nat) : String :=
 def parseRows (s : String) : Option (List (List Nat)) :=
   if s = "-" then some [] else (s.splitOn "/").mapM parseNatList
 
+/-! ### eval_dy_prf -/
+
+/-- an `Fp25519` element from its 32-byte little-endian hex serialisation -/
+def fpOfHex (s : String) : Option Nat := do
+  let bs ← parseHexBytes s
+  if bs.length = 32 then pure (ofLeBytes bs) else none
+
+def fpListOfHex (s : String) : Option (List Nat) :=
+  if s = "-" then some [] else (s.splitOn ",").mapM fpOfHex
+
+/-- does some match key hit the pole `x + k = 0` of the Dodis–Yampolskiy function? -/
+def prfPole (k : Nat) (xs : List Nat) : Bool := xs.any fun x => (x + k) % ell == 0
+
 def handle (toks : List String) : Option String :=
   match toks with
   | ["c07.mul", f, xs, ys] | ["c07.orf", f, xs, ys] => some <| (do
@@ -131,7 +145,26 @@ def handle (toks : List String) : Option String :=
       let bits ← bits.toNat?
       let xs ← parseNatList xs
       if bits + IpaVerif.Generated.C07.convSlack ≥ IpaVerif.Generated.C07.convBits then pure "panic:assertion failed" else
-      pure s!"{showNatList (xs.map fun x => (x % 2 ^ bits) % ell)} ok").getD "bad-request"
+      -- run the executable model of `convert_to_fp25519` lane by lane, with pseudo-random PRSS outputs, input
+      -- sharings and multiplication masks derived from the lane (theorem `conv_value`: the result does not depend on them)
+      let B := IpaVerif.Generated.C07.convBits
+      let rs : List IpaVerif.Conv.ConvResult := (List.range xs.length).map fun i =>
+        let x := xs.getD i 0 % 2 ^ bits
+        let rbits (k : Nat) : List Bool := (List.range B).map fun j => prg (7 * i + k + x % 1000) j 2 == 1
+        let ρ : Path → Masks Bool := fun q =>
+          let h := q.foldl (fun a b => (a * 31 + b + 1) % 1000003) (i + 1)
+          ⟨prg h 1 2 == 1, prg h 2 2 == 1, prg h 3 2 == 1⟩
+        let xsh : List (World Bool) := (bitsOf bits x).zipIdx.map fun (b, j) =>
+          share boolAlg b (prg (i + 11) (2 * j) 2 == 1) (prg (i + 13) (2 * j + 1) 2 == 1)
+        IpaVerif.Conv.convert ell B ρ [] (rbits 1) (rbits 2) xsh
+      let okAll := rs.all fun (R : IpaVerif.Conv.ConvResult) => consistentB R.out && R.malOk && (R.y1 == R.y2)
+      pure s!"{showNatList (rs.map fun (R : IpaVerif.Conv.ConvResult) => reconstruct (modAlg ell) R.out)} {flagStr okAll}").getD "bad-request"
+  | ["c07.prf", _mode, _n, k, xs] => some <| (do
+      -- the point -> u64 map is an external primitive: the model answers `judge` (the oracle decides); at the pole
+      -- x + k = 0 (excluded by the hypothesis of `prf_value`) the debug build trips dalek's assertion
+      let k ← fpOfHex k
+      let xs ← fpListOfHex xs
+      pure (if prfPole k xs then "panic:acc.pack() != Scalar::ZERO" else "judge")).getD "bad-request"
   | ["c07.vmul", _mode, _w, xs, ys] => some <| (do
       pure (vecOp "vmul" 1 1 (← parseNatList xs) (← parseNatList ys))).getD "bad-request"
   | [op, _mode, _w, n, m, xs, ys] =>
@@ -254,6 +287,34 @@ def oracleField (name op : String) (arg : Nat) (xs ys : List Nat) (impl : String
       if vals.getD i 0 == e then none else some s!"{name} {op} #{i}: a={x} b={y} got {vals.getD i 0}, expected {e}"
   | _ => none
 
+/-- spec side of `eval_dy_prf`, on the implementation's response
+`<pseudonyms> <agree|disagree> <e_i hex> <h_i>` where the harness reports, computed DIRECTLY (no MPC), the scalar
+`e_i = (x_i + k)⁻¹` and the external map `h_i = u64::from(RP25519::from(e_i))` (base-point multiple, compression,
+HKDF-SHA256 — an oracle parameter): (1) `e_i` IS the inverse modulo `ℓ` by this driver's own arithmetic,
+(2) the revealed pseudonym equals `h_i`, i.e. `hash((x+k)⁻¹ · G)`, for all three helpers,
+(3) equal match keys ⇔ equal pseudonyms within the sample. -/
+def oraclePrf (k : Nat) (xs : List Nat) (impl : String) : Option (Option String) :=
+  match impl.splitOn " " with
+  | [ps, agree, es, hs] => do
+    let ps ← parseNatList ps
+    let es ← fpListOfHex es
+    let hs ← parseNatList hs
+    if ps.length ≠ xs.length ∨ es.length ≠ xs.length ∨ hs.length ≠ xs.length then pure (some "wrong output shape") else
+    if agree ≠ "agree" then pure (some "the three helpers computed different pseudonyms") else
+    pure <| (checkAll xs.length fun i =>
+      let x := xs.getD i 0
+      let e := es.getD i 0
+      if e ≥ ell ∨ (e * ((x + k) % ell)) % ell ≠ 1 then some s!"reported scalar #{i} is not (x+k)^-1 mod l"
+      else if ps.getD i 0 ≠ hs.getD i 0 then
+        some s!"pseudonym #{i} of x={x} is {ps.getD i 0}, but hash((x+k)^-1 G) = {hs.getD i 0}"
+      else none).orElse fun _ =>
+      checkAll xs.length fun i => checkAll i fun j =>
+        let same := xs.getD i 0 % ell == xs.getD j 0 % ell
+        let samep := ps.getD i 0 == ps.getD j 0
+        if same == samep then none
+        else some s!"match keys #{j}, #{i}: equal={same} but pseudonyms equal={samep}"
+  | _ => none
+
 def oracle (toks : List String) (impl : String) : Option String :=
   match toks with
   | ["c07.mul", f, xs, ys] | ["c07.orf", f, xs, ys] => verdict (do
@@ -272,6 +333,12 @@ def oracle (toks : List String) (impl : String) : Option String :=
           if vs.getD i "" == toString (xs.getD i 0 % 2 ^ bits) then none
           else some s!"conversion of x={xs.getD i 0} ({bits} bits) reconstructs to {vs.getD i ""} in Fp25519"
       | _ => none)
+  | ["c07.prf", _mode, _n, k, xs] => verdict (do
+      let k ← fpOfHex k
+      let xs ← fpListOfHex xs
+      if prfPole k xs then none else
+      if impl.startsWith "panic" ∨ impl.startsWith "timeout" ∨ impl.startsWith "err" then pure (some s!"unexpected {impl}") else
+      oraclePrf k xs impl)
   | ["c07.vmul", _mode, _w, xs, ys] => verdict (do oracleVec "vmul" 1 1 (← natsOf xs) (← natsOf ys) impl)
   | [op, _mode, _w, n, m, xs, ys] =>
       if op ∈ ["c07.add", "c07.satadd", "c07.gt", "c07.mulint", "c07.or", "c07.and"] then verdict (do
